@@ -521,6 +521,8 @@ def r8(ctx):
 
 def run(ctx):
     r8(ctx)
+    from . import C06
+    C06.r16(ctx)   # the room left in the peer's window is computed on wrapping differences of sequence numbers
     r7(ctx)
     r6(ctx)
     r1(ctx)
